@@ -436,6 +436,27 @@ pub fn broken_program(rng: &mut Rng, size: usize) -> String {
         let (r, repl) = arbitrary_edit(rng, &t, true);
         t.replace_range(r, &repl);
     }
+    // a selection deleted: a run of 2..4 consecutive tokens (e.g. the `)` `;` that end a call)
+    if rng.chance(300) {
+        let toks = crude_tokens(&t);
+        if toks.len() > 4 {
+            let i = rng.below(toks.len() - 1);
+            let k = (i + rng.range(1, 3)).min(toks.len() - 1);
+            t.replace_range(toks[i].start..toks[k].end, "");
+        }
+    }
+    // a program that is still being written: everything behind some token is missing, with or
+    // without the closing brace an editor inserts by itself
+    if rng.chance(200) {
+        let toks = crude_tokens(&t);
+        if toks.len() > 3 {
+            let i = rng.range(1, toks.len() - 1);
+            t.truncate(toks[i].end);
+            if rng.chance(400) {
+                t.push_str("\n}\n");
+            }
+        }
+    }
     match rng.below(8) {
         0 => t.push_str("'"),
         1 => t.push_str("// no newline"),
@@ -761,6 +782,10 @@ pub fn typing_edits(rng: &mut Rng, text: &str) -> Vec<(std::ops::Range<usize>, S
         "0x1F",
         "f(1, 2, 3);",
         "a[i] := b[j][k];",
+        "printi(count + 12);",
+        "readi(value);",
+        "printc(10);",
+        "exit();",
     ]);
     let mut out = vec![];
     let mut pos = at;
@@ -867,6 +892,20 @@ pub fn request_position(rng: &mut Rng, text: &str) -> (u32, u32) {
             position_at(text, snap(text, off))
         }
     }
+}
+
+/// The position a client asks about while typing: at the cursor or up to three characters left
+/// of it, mostly with the methods an editor fires by itself at that moment.
+pub fn cursor_request(rng: &mut Rng, text: &str, cursor: usize) -> (&'static str, u32, u32) {
+    let m = if rng.chance(600) {
+        *rng.pick(&["textDocument/completion", "textDocument/signatureHelp", "textDocument/hover", "textDocument/signatureHelp"])
+    } else {
+        *rng.pick(&crate::h::scenario::METHODS)
+    };
+    let back = *rng.pick(&[0usize, 0, 1, 1, 2, 3]);
+    let off = snap(text, cursor.min(text.len()).saturating_sub(back));
+    let (l, c) = position_at(text, off);
+    (m, l, c)
 }
 
 #[allow(dead_code)]
